@@ -6,7 +6,7 @@
 (*   ref     DataSet.get: one sequence of pool indices per tree collection    *)
 (*   calls   [route, c, t, src, lab, raised, items, lens, pre, n]             *)
 (*   arrays  TreeArray.read: [t, src, raised, rooted, trees: [splits, w]]     *)
-(*   mpool / mref / mcalls   the same for character matrices                  *)
+(*   mpool / mref / mcalls   the same for character matrices ([cls, m, src, ..])*)
 (* TLC applies the selection operators of ReadRoutes to the collections the   *)
 (* data-set route delivered and judges every other route against them, field  *)
 (* by field (total verdicts).                                                 *)
@@ -141,18 +141,21 @@ SameCells(a, b) == Len(a.rows) = Len(b.rows) /\ \A i \in 1..Len(a.rows) : a.rows
 JudgeMatrix(e, k) ==
     LET mc == e.mcalls[k]
         cls == e.fmt \o "/CharMatrixGet"
-        x == SelMatrix(e.mref, mc.m)
+        typeOf(i) == e.mpool[i].type
+        x == SelMatrix(e.mref, typeOf, mc.cls, mc.m)
         \* string = stream = path (which taxon objects are attached is judged against the data set, not here)
         dispatch ==
             IF mc.src = "data" THEN None
-            ELSE LET D == {j \in 1..Len(e.mcalls) : e.mcalls[j].src = "data" /\ e.mcalls[j].m = mc.m} IN
+            ELSE LET D == {j \in 1..Len(e.mcalls) : e.mcalls[j].src = "data" /\ e.mcalls[j].m = mc.m /\ e.mcalls[j].cls = mc.cls} IN
                  IF D # {} /\ (LET d == e.mcalls[CHOOSE j \in D : TRUE] IN
                                  d.raised = mc.raised /\ (d.item = mc.item \/ (d.item > 0 /\ mc.item > 0 /\
                                      LET a == e.mpool[d.item]  b == e.mpool[mc.item] IN SameCells(a, b) /\ NameOf(a) = NameOf(b) /\ a.type = b.type /\ a.sets = b.sets)))
                  THEN None ELSE V("C13.SourceDispatch", cls \o ":" \o mc.src)
     IN
     dispatch \o
-    (IF x.err # "" THEN (IF mc.raised # "" THEN None ELSE V("C13.MatrixAloneEqualsMatrixInDataSet", cls \o ":matrix-from-nowhere"))
+    (IF x.err = "NoMatrix" THEN (IF mc.raised # "" THEN None ELSE V("C13.MatrixAloneEqualsMatrixInDataSet", cls \o ":matrix-from-nowhere"))
+     ELSE IF x.err # "" THEN (IF mc.raised = x.err THEN None
+                              ELSE V("C13.MatrixAloneEqualsMatrixInDataSet", cls \o ":expected-" \o x.err \o ":got-" \o (IF mc.raised = "" THEN "result" ELSE mc.raised)))
      ELSE IF mc.raised # "" THEN V("C13.MatrixAloneEqualsMatrixInDataSet", cls \o ":raised-" \o mc.raised)
      ELSE LET a == e.mpool[x.items[1]]  b == e.mpool[mc.item] IN
           IF x.items[1] = mc.item THEN None
